@@ -185,6 +185,8 @@ def _term(H, W, t):
         return np.exp(-(dx * dx + dy * dy) / (2 * s * s))
     if k == "cos":
         return np.cos(TWO_PI * (t["m"] * x / W + t["n"] * y / H) + t["ph"])
+    if k == "white":
+        return np.random.default_rng(t["seed"]).standard_normal((H, W))
     if k == "band":
         rng = np.random.default_rng(t["seed"])
         km = t["kmax"]
